@@ -19,7 +19,11 @@ PARTIAL = ["the theorem is about a model of threads that share only the immutabl
            "obtains what it obtains alone; that the Rust code shares nothing else (no interior mutability behind Sync) is the static fact "
            "plus the audit plus the observation, not a theorem"]
 
-EXTRA = ["def f: if . < 300 then . + 1 | f else . end; 0 | f", "[limit(50; repeat(1))] | add", "[range(200)] | map(. * 2) | add", "[.[]? | tostring] | sort | join(\",\")", "try error(\"x\") catch .",
+EXTRA = ["0, (label $a | 1, (label $b | 2, break $a, 3), 4)", "[label $a | (1, 2) | label $b | (., break $b, 9), (if . == 2 then break $a else . end)]", "[limit(2; label $x | (1, 2, 3) | first(., break $x))]",
+         "label $a | first(label $b | (1, break $a)), 2", "[.[]? | label $l | (., break $l)] | length", "first(label $a | label $b | label $c | (1, break $a))", "[label $o | range(5) | label $i | if . == 3 then break $o else ., break $i end]",
+         "del(.[1:3])", ".[1:] |= empty", "(.[:2]) |= empty", "del(.[0])", "del(.a)", ".[]? |= empty", "del(.. | select(. == null))", ".[0] = 1", ". + [1]?", ".a += 1", "sort?", "reverse?", "setpath([\"a\"]; 1)?",
+         "delpaths([[\"a\"], [0]])?", "map_values(empty)?", "walk(.)", ".[1:2] = [9, 9, 9]", ".[2:4] |= map(. + 1)?", "to_entries?", "with_entries(.value |= .)?", ".. |= .", "[.[1:3], del(.[1:3]), .]", "(.a, .b) |= empty",
+         "def f: if . < 300 then . + 1 | f else . end; 0 | f", "[limit(50; repeat(1))] | add", "[range(200)] | map(. * 2) | add", "[.[]? | tostring] | sort | join(\",\")", "try error(\"x\") catch .",
          "label $f | (1, 2, break $f, 3)", "[paths]", "(.. | numbers) |= . + 1", "[.[]?] | group_by(type) | map(length)", "tojson | fromjson", "[splits(\"a\")?]", "@base64 \"x\\(.)\" | @base64d",
          "reduce range(100) as $x (0; . + $x)", "[foreach range(10) as $x (0; . + $x)]", "to_entries? // .", "[.[]? | select(type == \"number\")] | unique", "path(..)", "[test(\"a\"; \"g\")?]",
          "{a: .} | .a |= [., .]", "[., .] | flatten | length", "def g(f): [f, f]; g(., 1)", ". as [$a] ?// $a | $a" if False else ". as $a | [$a, $a]", "[.[]?] | sort_by(tojson) | reverse", "ascii_downcase? // null",
@@ -39,7 +43,7 @@ def custom(ctx):
                          case=dict(filter="(build)", kind="static"), impl=None, noinput=True))
     jaqh_sync = os.path.join(sync_dir, "debug", "jaqh")
     g = Gen(rng, max_depth=5)
-    inputs = [from_json(__import__("json").loads(s)) for s in c01.INPUTS_SRC]
+    inputs = [from_json(__import__("json").loads(s)) for s in c01.INPUTS_SRC] + [from_json([0, 1, 2, 3, 4, 5]), from_json({"a": [1, None, 2], "b": {"a": 1}}), from_json([[1, 2], [3], None])]
     n = 160 if tier == "quick" else 4000
     progs = [g.term(Scope(), rng.choice([2, 3, 4, 5])) for _ in range(n)] + EXTRA
     T, R = (8, 3) if tier == "quick" else (16, 6)
